@@ -138,7 +138,13 @@ func main() {
 	if *dumpFn != "" {
 		for _, o := range ex.obls {
 			if strings.Contains(o.Name, *dumpFn) {
-				fmt.Printf(";;;; %s (inst %d) tags=%v\n;; %s\n;; path: %s\n%s\n", o.Name, o.Inst, o.Tags, o.Desc, strings.Join(o.Trace, " "), ex.script(o, true))
+				sc := ex.script(o, true)
+				if os.Getenv("RUXVC_DUMP_ABSTRACT") != "" {
+					if a, ok := abstractStrings(ex.script(o, false)); ok {
+						sc = a
+					}
+				}
+				fmt.Printf(";;;; %s (inst %d) tags=%v\n;; %s\n;; path: %s\n%s\n", o.Name, o.Inst, o.Tags, o.Desc, strings.Join(o.Trace, " "), sc)
 			}
 		}
 		for _, e := range ex.errs {
@@ -427,7 +433,7 @@ func main() {
 		fns = append(fns, shortFn(f))
 	}
 	sort.Strings(fns)
-	trusted := trustedBase(ex)
+	trusted := trustedBase(ex, fnSet)
 	extra := map[string]any{
 		"functions_under_contract": fns,
 		"solver_wins":              solverWins,
@@ -524,28 +530,24 @@ func loadKnown(path string) *KnownFile {
 	return k
 }
 
-func trustedBase(ex *Exec) []string {
+func trustedBase(ex *Exec, fns map[string]bool) []string {
 	out := []string{
 		"go/types + go/ssa (x/tools v0.29.0) translate the source faithfully; ruxvc's semantics of the SSA instruction set",
 		"z3 4.8.12 / z3 5.1.0 / cvc5 1.0.3 answer unsat only when so",
 	}
+	// what the proofs of the functions of this run assume (extern contracts, relies, determinism)
+	seen := map[string]bool{}
 	var ks []string
-	for k := range ex.usedExterns {
-		ks = append(ks, k)
+	for f := range fns {
+		for k := range ex.assumedBy[f] {
+			if !seen[k] {
+				seen[k] = true
+				ks = append(ks, k)
+			}
+		}
 	}
 	sort.Strings(ks)
-	for _, k := range ks {
-		out = append(out, "assumed contract (extern/trusted): "+k)
-	}
-	ks = nil
-	for k := range ex.usedRelies {
-		ks = append(ks, k)
-	}
-	sort.Strings(ks)
-	for _, k := range ks {
-		out = append(out, "rely condition on function values: "+strings.TrimPrefix(k, "functype:"))
-	}
-	return out
+	return append(out, ks...)
 }
 
 func (ex *Exec) assumptionList() []string {
